@@ -25,6 +25,7 @@ func init() {
 			ruleReaderPath(r)
 			ruleFinishRenameLast(r)
 			ruleCompactionNeedsInput(r)
+			ruleMergeAlwaysReduces(r)
 		})
 	register("C08",
 		"Static rules for merging and stacking: (E-KEYNIL) no key-carrying value is compared with nil on the merge path; the merge iterator treats values as opaque except for nil-ness and nil-tests the reducer's value result at both emission sites; the merge context of every input is its index in the oldest-first reader slice in all three stacked scans; the iterator adapter and the stacked point lookups forward every error that is not the reviewed not-found / exhaustion sentinel (E-ERRFLOW). Decides these shapes; heap order, reducer arithmetic and scan bounds are value-level and not decided.",
@@ -43,6 +44,9 @@ func init() {
 			ruleHeapShape(r)
 			ruleSentinelForm(r, "pq", "sstables")
 			ruleSentinelProducible(r, "sstables", "pq")
+			ruleMergeAlwaysReduces(r)
+			ruleErrorIsLooksAtTarget(r)
+			ruleMergeAcceptsAnyCount(r)
 		})
 	register("C01",
 		"Static necessary conditions of map equivalence across flushes, compactions and restarts: age-encoding names are fixed-width and every listing is sorted before use; the rotation hands the old write store to the flusher, keeps it as read store and installs a fresh write store; a flushed table is visible before the flush reports success; merged readers are always built from the oldest-first list; lock order and hand-off discipline admit no deadlock (E-LOCK); compaction may drop tombstones only when anchored at the oldest table, uses the flood-filled selection, age-ordered merge contexts and the oldest input's slot. Decides these shapes on all paths; the equivalence itself (over operation sequences and schedules) is not decided.",
@@ -79,6 +83,7 @@ func init() {
 			ruleBloomSizePositive(r)
 			ruleSlotInList(r)
 			ruleJoin(r)
+			ruleMergeAlwaysReduces(r)
 		})
 }
 
